@@ -1,6 +1,8 @@
 import Rl4co.Core.Proto
 import Rl4co.Env.Flp
 import Rl4co.Spec.Flp
+import Rl4co.Spec.SelectOpt
+import Rl4co.Env.SelectBatch
 namespace Rl4co.Driver.Flp
 open Rl4co.Proto
 
@@ -32,7 +34,26 @@ def episode (toks : List String) : Option String := do
   let fin := exec Rl4co.Flp.env i (Rl4co.Flp.reset i) as
   pure s!"{tr} chosen={chosen} dist={dist} near={near} reward={Rl4co.Flp.reward i fin} feas={bit (Rl4co.Spec.Flp.feasible i as)} obj={Rl4co.Spec.Flp.objective i as} bound={q}"
 
+/-- `flp.opt n quota | D | d0 | ` → brute-force optimum of the reward scale (`Spec.Flp.optimum`) and the
+number of feasible selections -/
+def opt (toks : List String) : Option String := do
+  let [hd, dm, d0, _] ← parseSections toks | none
+  let [n, q] := hd | none
+  let n := n.toNat
+  let i : Rl4co.Flp.Inst := { n := n, quota := q, D := fn2 n dm, d0 := fn1 d0 }
+  pure s!"opt={Rl4co.Spec.Flp.optimum i} nfeas={(Rl4co.Spec.Flp.candidates i).length}"
+
+/-- `flp.view B n | chosen bits (B·n, row-major)` → the rows of `chosen.nonzero(as_tuple=True)[1].view(B, -1)`
+as modelled by `Flp.flatIdx` / `Flp.viewRow` (rows separated by `:`) -/
+def view (toks : List String) : Option String := do
+  let [hd, cb] ← parseSections toks | none
+  let [b, n] := hd | none
+  let b := b.toNat; let n := n.toNat
+  let chosen : Nat → Nat → Bool := fun r j => cb.getD (r * n + j) 0 != 0
+  let flat := Rl4co.Flp.flatIdx b (fun _ => n) chosen
+  pure s!"rows={":".intercalate ((List.range b).map (fun r => natsStr (Rl4co.Flp.viewRow b flat r)))}"
+
 def handlers : List (String × (List String → Option String)) :=
-  [("flp.episode", episode)]
+  [("flp.episode", episode), ("flp.opt", opt), ("flp.view", view)]
 
 end Rl4co.Driver.Flp
